@@ -4,11 +4,11 @@ CONSTANTS
   PRICE = {1, 2, 3}
   AMOUNT = {0, 1, 2}
   RULES = {"Spot", "Futures"}
-  MCM = 8
+  MCM = 10
   EVOLUTIONS <- FewEvolutions
-  MaxEvents = 5
+  MaxEvents = 10
   MaxDeliver = 1000
   MaxReinit = 1000
-  MaxLen = 24
+  MaxLen = 30
 INVARIANT Emit
 CHECK_DEADLOCK FALSE
